@@ -153,6 +153,88 @@ def values_oracle(data, case, res):
 
 
 # ---------------------------------------------------------------------------------------------
+def mask_random(data):
+    """the API-3 auth_digital request carries a ticket encrypted under a fresh random key"""
+    return re.sub(rb"(cert|cert_key)=[A-Za-z0-9_%-]+", rb"\1=*", data)
+
+
+def stateful_walk(ctx, mods, data, versions, cases, results):
+    """ONE object per client, switched up and down through all supported versions (unknown versions interleaved),
+    every public call after every switch: each request must equal the request a freshly constructed client sends
+    for that version (requests are a function of the current configuration, not of the client's history)."""
+    fresh = {}
+    for c, r in zip(cases, results):
+        if not c["cfg"] and c["ver"] != "init" and "/nodevice" not in c["tag"]:
+            fresh[(c["client"], c["call"], c["tag"], c["ver"])] = (c, r)
+    rng = ctx.rng
+    known = set(versions)
+    walk = sorted(versions) + sorted(versions, reverse=True)
+    extra = list(versions); rng.shuffle(extra)
+    walk += extra + extra[:10][::-1]
+    unknown = [v for v in [0, 899, 1005, 1702, 1799, 1899, 1902, 2000, 10000] if v not in known]
+    steps = []
+    for v in walk:
+        if rng.random() < 0.25: steps.append(rng.choice(unknown))
+        steps.append(v)
+    n_calls = [0]
+
+    async def main():
+        for client in sc.CLIENTS:
+            devid = 0x6265A1B2C3D4E5F6 if client in ("dragons", "sun", "atumn") else None
+            variants = sc.call_variants(client)
+            # every call, at most three variants each (the first ones listed: the plain / default shapes)
+            per, chosen = {}, []
+            for call, args, tag in variants:
+                if per.get(call, 0) < 3 and not tag.startswith(("lang:", "nolang:")):
+                    per[call] = per.get(call, 0) + 1; chosen.append((call, args, tag))
+            cl = sc.make_client(mods, client, devid)
+            caps = []
+            cur = {"call": None}
+
+            async def cb(host, req, context):
+                caps.append({"host": host, "data": req.encode()})
+                return sc.good_response(client, cur["call"], req)
+            cl.set_request_callback(cb)
+            current = data["latest"][client]
+            history = []
+            for v in steps:
+                try:
+                    cl.set_system_version(v)
+                    if v not in known:
+                        ctx.violation("set-version-accepts:%s:%d" % (client, v), "%s.set_system_version accepts the unknown version %d" % (client, v), {"client": client, "version": v})
+                        continue
+                    current = v
+                except ValueError:
+                    if v in known:
+                        ctx.violation("set-version-refuses:%s:%d" % (client, v), "%s.set_system_version refuses %d on a reused client" % (client, v), {"client": client, "version": v, "history": history[-6:]})
+                        continue
+                history.append(v)
+                for call, args, tag in chosen:
+                    key = (client, call, tag, current)
+                    if key not in fresh: continue
+                    fc, fr = fresh[key]
+                    caps.clear(); cur["call"] = call
+                    try:
+                        await sc.invoke(cl, client, call, args)
+                        got = ("ok", [(x["host"], mask_random(x["data"])) for x in caps])
+                    except Exception as e:
+                        got = ("err", sc.exc_name(e))
+                    exp = ("ok", [(x["host"], mask_random(x["data"])) for x in fr["caps"]]) if fr["ok"] else ("err", sc.exc_name(fr["exc"]))
+                    n_calls[0] += 1
+                    ctx.case(key="walk/%s/%s/%s/%d/%d" % (client, call, tag, current, len(history)), nontrivial=True, tag="walk:%s.%s" % (client, call))
+                    if got != exp:
+                        def show(x): return [d.decode("utf-8", "replace") for _, d in x[1]] if x[0] == "ok" else x[1]
+                        ctx.violation("stateful:%s:%s:%d" % (client, call, current),
+                                      "%s.%s (%s) on a client that was switched through versions %s sends a different request at %d than a freshly "
+                                      "constructed client configured for %d" % (client, call, tag, history[-4:], current, current),
+                                      {"client": client, "call": call, "variant": tag, "version": current, "set_system_version_history": history[-12:],
+                                       "request_reused_client": show(got), "request_fresh_client": show(exp)})
+    anyio.run(main)
+    ctx.extra["stateful_walk_calls"] = n_calls[0]
+    ctx.extra["stateful_walk_steps"] = len(steps)
+
+
+# ---------------------------------------------------------------------------------------------
 STATUSES = [200, 201, 204, 299, 100, 199, 300, 301, 304, 400, 401, 403, 404, 418, 500, 503, 599]
 
 
@@ -331,19 +413,31 @@ def run(ctx):
             shapes.setdefault((c["client"], c["call"], c["tag"]), {})[c["ver"]] = (sh, r)
     ctx.traces_validated = len(lines)
 
-    # oracle: shape changes only at the documented boundaries (directly on the captured real requests)
+    # oracle: every feature of every public call changes only at the boundaries documented *for that call and feature*,
+    # and the changes the changelog names do happen there (directly on the captured real requests)
     for (client, call, tag), byver in shapes.items():
         vs = sorted(byver)
+        allowed = sc.era_allowed(client, call)
+        feats = {v: sc.features_of(byver[v][1]) for v in vs}
+        def reqs(v): return [x["data"].decode("utf-8", "replace") for x in byver[v][1]["caps"]] or [repr(byver[v][1].get("exc"))]
         for a, b in zip(vs, vs[1:]):
-            if b in sc.BOUNDARIES: continue
-            if any(a < x <= b for x in sc.BOUNDARIES): continue
-            if byver[a][0] != byver[b][0]:
-                ctx.violation("shape:%s:%s:%d-%d" % (client, call, a, b),
-                              "%s.%s (%s) changes shape between %d and %d, which is not a documented boundary" % (client, call, tag, a, b),
-                              {"client": client, "call": call, "variant": tag, "versions": [a, b],
-                               "shape_a": repr(byver[a][0]), "shape_b": repr(byver[b][0]),
-                               "request_a": [x["data"].decode("utf-8", "replace") for x in byver[a][1]["caps"]],
-                               "request_b": [x["data"].decode("utf-8", "replace") for x in byver[b][1]["caps"]]})
+            for f in sc.era_diff(feats[a], feats[b]):
+                if not any(a < x <= b for x in allowed[f]):
+                    ctx.violation("era:%s:%s:%s:%d-%d" % (client, call, f, a, b),
+                                  "%s.%s (%s): the %s of the request change between %d and %d; the documentation and the tables allow a change of this "
+                                  "feature of this call only at %s" % (client, call, tag, f, a, b, sorted(allowed[f]) or "no version"),
+                                  {"client": client, "call": call, "variant": tag, "feature": f, "versions": [a, b], "allowed_boundaries": sorted(allowed[f]),
+                                   "request_a": reqs(a), "request_b": reqs(b)})
+        for f, bd in sc.era_required(client, call, tag):
+            lo = [v for v in vs if v < bd]; hi = [v for v in vs if v >= bd]
+            if lo and hi and feats[lo[-1]][0] == "ok" and feats[hi[0]][0] == "ok" and f not in sc.era_diff(feats[lo[-1]], feats[hi[0]]):
+                ctx.violation("era-missing:%s:%s:%s:%d" % (client, call, f, bd),
+                              "%s.%s (%s): the %s of the request must change at %d (docs/changelog.md) but are the same at %d and %d"
+                              % (client, call, tag, f, bd, lo[-1], hi[0]),
+                              {"client": client, "call": call, "variant": tag, "feature": f, "boundary": bd, "versions": [lo[-1], hi[0]],
+                               "request_a": reqs(lo[-1]), "request_b": reqs(hi[0])})
+
+    stateful_walk(ctx, mods, data, versions, cases, results)
 
     # oracle: validation accepts exactly the well-formed values
     for c, r in zip(cases, results):
